@@ -232,6 +232,12 @@ def run(check):
                   'paths %s / %s / %s, not (0) / (1,0) / (1,1)' % (sorted(map(str, m_src)), sorted(map(str, d0_src)), sorted(map(str, d1_src))),
                   construct='field routing of MetricPickleReceiver.stringReceived')
 
+  # ------------------------------------------------------------------ the listener passes the decoded datapoint on unchanged
+  from .c12 import rule_normalisation
+  r_ap = check.rule('R-C15-admission-passthrough', 3, 'the receiving daemon passes name, timestamp and value on as decoded (only the '
+                    'documented -1 / resolution normalisations touch the timestamp)')
+  rule_normalisation(check, cx, r_ap)
+
   # ------------------------------------------------------------------ batches
   r_b = check.rule('R-C15-batch', 2, 'batches are popped from the left, at most MAX_DATAPOINTS_PER_MESSAGE, never merged or reordered')
   tq = cx.fn('carbon.client', 'CarbonClientFactory.takeSomeFromQueue')
